@@ -22,6 +22,9 @@ type bridge struct {
 	lingering []*bridgeConn
 	// held[p]: gate on the relay's sends towards p's connections (slow down-link)
 	held map[int]chan struct{}
+	// liveListen: Listen calls of the clients are served by the relay's real Listen handler
+	liveListen  bool
+	listenConns map[int][]*srvListen
 }
 
 type bridgeConn struct {
@@ -33,7 +36,7 @@ type bridgeConn struct {
 }
 
 func newBridge() *bridge {
-	return &bridge{srv: newServer(), conns: map[int][]*bridgeConn{}, drop: map[int]map[string]int{}}
+	return &bridge{srv: newServer(), conns: map[int][]*bridgeConn{}, drop: map[int]map[string]int{}, listenConns: map[int][]*srvListen{}}
 }
 
 // relayFor returns the SRPCSignalingClient identity p uses to reach the relay.
@@ -46,7 +49,49 @@ type bridgeRelay struct {
 
 func (r *bridgeRelay) SRPCClient() srpc.Client { return nil }
 func (r *bridgeRelay) Listen(ctx context.Context, in *signaling.ListenRequest) (signaling.SRPCSignaling_ListenClient, error) {
-	return &cliListen{ctx: ctx}, nil
+	r.b.mu.Lock()
+	live := r.b.liveListen
+	r.b.mu.Unlock()
+	if !live {
+		return &cliListen{ctx: ctx}, nil
+	}
+	// the relay's real Listen handler serves the client's listen routine
+	cl := newCliListenLive(ctx)
+	sl := newSrvListen(r.who)
+	sl.forward = func(m *signaling.ListenResponse) {
+		select {
+		case cl.ch <- m.CloneVT():
+		default:
+		}
+	}
+	go func() {
+		<-cl.ctx.Done()
+		sl.cancel()
+	}()
+	go func() {
+		<-sl.done
+		// the relay ended the call: the client's stream fails
+		select {
+		case cl.ch <- nil:
+		default:
+		}
+	}()
+	r.b.mu.Lock()
+	r.b.listenConns[r.who] = append(r.b.listenConns[r.who], sl)
+	r.b.mu.Unlock()
+	sl.start(r.b.srv)
+	return cl, nil
+}
+
+// cutListen fails the relay-side Listen calls of identity p (the client's listen routine retries).
+func (b *bridge) cutListen(p int) {
+	b.mu.Lock()
+	ls := b.listenConns[p]
+	b.listenConns[p] = nil
+	b.mu.Unlock()
+	for _, l := range ls {
+		l.cancel()
+	}
 }
 func (r *bridgeRelay) Session(ctx context.Context) (signaling.SRPCSignaling_SessionClient, error) {
 	cli := newCliSession(ctx)
@@ -188,7 +233,14 @@ func (b *bridge) stopAll() {
 		all = append(all, cs...)
 	}
 	all = append(all, b.lingering...)
+	var ls []*srvListen
+	for _, l := range b.listenConns {
+		ls = append(ls, l...)
+	}
 	b.mu.Unlock()
+	for _, l := range ls {
+		l.cancel()
+	}
 	for _, c := range all {
 		c.srv.cancel()
 		c.cli.cancel()
